@@ -63,6 +63,15 @@ class DefUse:
                 for t in n.targets:
                     if isinstance(t, ast.Name):
                         counts[t.id] = counts.get(t.id, 0) + 2
+        # a local that is mutated in place (accumulator) is not a value: it is never replaced by its initialiser
+        MUT = ('append', 'add', 'update', 'extend', 'pop', 'remove', 'insert', 'clear', 'discard', 'setdefault',
+               'popitem', 'sort', 'reverse')
+        for n in own_nodes(fn_node):
+            if isinstance(n, ast.Call) and isinstance(n.func, ast.Attribute) and isinstance(n.func.value, ast.Name) \
+                    and n.func.attr in MUT:
+                counts[n.func.value.id] = counts.get(n.func.value.id, 0) + 1
+            elif isinstance(n, ast.Subscript) and isinstance(n.value, ast.Name) and isinstance(n.ctx, (ast.Store, ast.Del)):
+                counts[n.value.id] = counts.get(n.value.id, 0) + 1
         a = fn_node.args
         params = {x.arg for x in a.posonlyargs + a.args + a.kwonlyargs}
         if a.vararg:
@@ -76,6 +85,9 @@ class DefUse:
     def closed(self, e, depth=0, bound=None):
         """a copy of e in closed form."""
         e = copy.deepcopy(e)
+        for x in ast.walk(e) if isinstance(e, (ast.Name, ast.Tuple, ast.List)) else ():
+            if isinstance(x, (ast.Name, ast.Tuple, ast.List)) and not isinstance(x.ctx, ast.Load):
+                x.ctx = ast.Load()      # a binding target given as such: its closed form is what it is bound to
         return self._close(e, depth, dict(bound or {}))
 
     def _close(self, e, depth, bound):
